@@ -53,6 +53,7 @@ PARTIAL — full statements (kept visible here, not proved):
 import PyOak.Props.LegacyDetach
 import PyOak.Props.LegacyConstruct
 import PyOak.Props.LegacyReplace
+import PyOak.Props.LegacyRemove
 namespace PyOak.Legacy.C18
 open PyOak PyOak.Legacy LState
 
@@ -359,6 +360,13 @@ theorem inv_step_rwith_parent_partial {s s' : LState} {u p n : Nat} {out : LOut}
         exact replaceWith_inv_parent_some Hc hI (hlt u (by simp [LOp.refs])) (hlt n (by simp [LOp.refs]))
           hpar hnd hacyc hc
 
+/-- `replace_with` on a child: `new` is a detached node and walking up from the parent reaches a root
+without meeting the receiver (computable form of "the parent is not a descendant of the receiver") -/
+def rwithParentOk (s : LState) (u : Nat) (new : Option Nat) : Bool :=
+  match s.parent u, new with
+  | some p, some n => s.detached n && upFree s u (s.size + 1) p
+  | _, _ => false
+
 /-- the operations whose invariant preservation is proved -/
 def LOp.proved (s : LState) : LOp → Prop
   | .new sp => (newObj sp).wf
@@ -366,16 +374,13 @@ def LOp.proved (s : LState) : LOp → Prop
   | .replace u ch => ch.wfFor (s.obj u)
   | .rwith u new =>
     (s.parent u = none ∧ (match new with | none => True | some n => s.detached n = true)) ∨
-    (∃ p n, s.parent u = some p ∧ new = some n ∧ s.detached n = true ∧ ¬ Desc s u p)
+    rwithParentOk s u new = true
 
-/-- decidable up to the acyclicity side condition of `replace_with` (decided classically) -/
-noncomputable instance (s : LState) (op : LOp) : Decidable (LOp.proved s op) := by
+instance (s : LState) (op : LOp) : Decidable (LOp.proved s op) := by
   cases op <;> unfold LOp.proved <;> try infer_instance
   next u new =>
     have : Decidable (s.parent u = none ∧ (match new with | none => True | some n => s.detached n = true)) := by
       cases new <;> infer_instance
-    have : Decidable (∃ p n, s.parent u = some p ∧ new = some n ∧ s.detached n = true ∧ ¬ Desc s u p) :=
-      Classical.propDecidable _
     exact instDecidableOr
 
 /-- one step of a history, for the operations in `proved` -/
@@ -387,11 +392,24 @@ theorem inv_step_partial {s s' : LState} {op : LOp} {out : LOut} (hI : Inv Hc s)
   | detach u os => exact inv_step_detach H Hc hI h hok
   | replace u ch => exact inv_step_replace H Hc hI hp h hok
   | rwith u n =>
-    rcases hp with hp | ⟨p, m, h1, h2, h3, h4⟩
+    rcases hp with hp | hp
     · refine inv_step_rwith_partial H Hc hI hp.1 ?_ h hok
       intro m hm; subst hm; exact hp.2
-    · subst h2
-      exact inv_step_rwith_parent_partial H Hc hI h1 h3 h4 h hok
+    · unfold rwithParentOk at hp
+      cases hpar : s.parent u with
+      | none => rw [hpar] at hp; simp at hp
+      | some p =>
+        cases n with
+        | none => rw [hpar] at hp; simp at hp
+        | some m =>
+          rw [hpar] at hp
+          simp only [Bool.and_eq_true] at hp
+          have hua : Att s u := by
+            unfold LState.parent at hpar
+            cases hk : (s.obj u).pid with
+            | none => rw [hk] at hpar; cases hpar
+            | some k => exact (hI.noDangling u k hk).1
+          exact inv_step_rwith_parent_partial H Hc hI hpar hp.1 (not_desc_of_upFree hI hua hp.2) h hok
   | dup u c => exact inv_step_dup H Hc hI h hok
 
 /-- a history all of whose steps returned and lie in the proved fragment -/
@@ -532,14 +550,14 @@ def hist : List LOp :=
   [.new (leaf "1"), .new (un 0), .detach 1 false, .attach 1, .dup 1 false, .replace 1 ⟨[], [], false⟩,
    .dup 3 true, .rwith 3 (some 6), .detach 4 true]
 
-noncomputable def decGoodRun : ∀ (ops : List LOp) (s : LState), Decidable (GoodRun id id s ops)
+def decGoodRun : ∀ (ops : List LOp) (s : LState), Decidable (GoodRun id id s ops)
   | [], _ => isTrue trivial
   | op :: r, s =>
     have := decGoodRun r (step id id s op).1
     inferInstanceAs (Decidable
       (LOp.proved s op ∧ (step id id s op).2.isOk = true ∧ GoodRun id id (step id id s op).1 r))
 
-noncomputable instance (s : LState) (ops : List LOp) : Decidable (GoodRun id id s ops) := decGoodRun ops s
+instance (s : LState) (ops : List LOp) : Decidable (GoodRun id id s ops) := decGoodRun ops s
 
 example : GoodRun id id init hist := by decide
 
@@ -585,6 +603,7 @@ example : Inv id (step id id (st histP) (.rwith 0 (some 2))).1 :=
     (fun h => by have := Desc.of_leaf (by decide) h; exact absurd this (by decide))
     (out := outOf histP (.rwith 0 (some 2))) rfl (by decide)
 example : ((step id id (st histP) (.rwith 0 (some 2))).1.obj 1).kidList = [2] := by decide
+example : GoodRun id id init (histP ++ [.rwith 0 (some 2)]) := by decide
 
 -- after the history: node 5 is attached, its parent is node 6 (the clone that replaced node 3) …
 example : Att (st hist) 5 ∧ (st hist).parent 5 = some 6 := by decide
